@@ -1,14 +1,120 @@
 import Driver.Proto
-/-! Driver sub-command `core` (stub – filled in by its cluster). -/
+import PtVerif.Model.Core
+import PtVerif.Generated.ElementBase
+/-! Driver sub-command `core`: the table-core state machine (C08).
+
+Strings cross the protocol as comma-separated code points (`-` = empty string).
+Requests: `reset`, `newtable T`, `define T`, `getz T z`, `symbol T s`, `name T s`, `isotope T s`,
+`attr T s`, `modattr s`, `iso o a`, `addiso o a`, `ion o q`, `element o`, `isotopes o`,
+`itertable T`, `iteriso o`, `reduce o`, `changetable o T`, `info o`.
+Replies: `obj i` | `objs i…` | `nats n…` | `unit` | `err <class>` | `info T z a q sym name`. -/
 namespace Driver.CoreCmd
-open Driver
+open Driver PtCore
+
+def base : Base := baseOfRaw PtGen.elementBase
 
 structure St where
-  dummy : Unit := ()
+  s : State := {}
+  /-- every object returned so far, in order (object arguments are indices into this list) -/
+  res : Array Nat := #[]
+  /-- saved (state, results) for `rewind` -/
+  saved : Option (State × Array Nat) := none
 
 def init : St := {}
 
+def strTok (t : String) : Option String :=
+  if t = "-" then some "" else
+    (t.splitOn ",").foldl (fun acc p =>
+      match acc, p.toNat? with
+      | some s, some n => some (s.push (Char.ofNat n))
+      | _, _ => none) (some "")
+
+def encStr (s : String) : String :=
+  if s.isEmpty then "-" else ",".intercalate (s.toList.map fun c => toString c.toNat)
+
+def showErr : Err → String
+  | .key => "key" | .value => "value" | .type => "type" | .attribute => "attribute"
+
+def showRes : Res → String
+  | .obj i => s!"obj {i}"
+  | .objs l => "objs " ++ " ".intercalate (l.map toString)
+  | .nats l => "nats " ++ " ".intercalate (l.map toString)
+  | .unit => "unit"
+  | .err e => "err " ++ showErr e
+
+def doOp (st : St) (op : Op) : IO St := do
+  let (s', r) := step base st.s op
+  reply (showRes r)
+  let res := match r with
+    | .obj i => st.res.push i
+    | .objs l => l.foldl (fun a i => a.push i) st.res
+    | _ => st.res
+  pure { st with s := s', res := res }
+
+/-- object argument: index into the results -/
+def objTok (st : St) (t : String) : Option Nat := natTok t >>= fun k => st.res[k]?
+
+def bad (st : St) : IO St := do reply "ERR bad-op"; pure st
+
 def handle (st : St) : Toks → IO St
-  | _ => do reply "ERR bad-op"; pure st
+  | ["reset"] => pure {}
+  | ["mark"] => pure { st with saved := some (st.s, st.res) }
+  | ["rewind"] => match st.saved with
+    | some (s, r) => pure { st with s := s, res := r }
+    | none => bad st
+  | ["addisokey", t, z, a] => match strTok t, natTok z, natTok a with
+    -- `table[z].add_isotope(a)` without recording a result (bulk loaders)
+    | some t, some z, some a =>
+      match st.s.getZ t z with
+      | .obj e => do
+        let (s', _) := step base st.s (.addIsotope e a)
+        reply "unit"; pure { st with s := s' }
+      | _ => do reply "err key"; pure st
+    | _, _, _ => bad st
+  | ["newtable", t] => match strTok t with
+    | some t => doOp st (.newTable t) | none => bad st
+  | ["define", t] => match strTok t with
+    | some t => doOp st (.defineElements t) | none => bad st
+  | ["getz", t, z] => match strTok t, natTok z with
+    | some t, some z => doOp st (.getZ t z) | _, _ => bad st
+  | ["symbol", t, x] => match strTok t, strTok x with
+    | some t, some x => doOp st (.symbol t x) | _, _ => bad st
+  | ["name", t, x] => match strTok t, strTok x with
+    | some t, some x => doOp st (.name t x) | _, _ => bad st
+  | ["isotope", t, x] => match strTok t, strTok x with
+    | some t, some x => doOp st (.isotope t x) | _, _ => bad st
+  | ["attr", t, x] => match strTok t, strTok x with
+    | some t, some x => doOp st (.attr t x) | _, _ => bad st
+  | ["modattr", x] => match strTok x with
+    | some x => doOp st (.modAttr x) | none => bad st
+  | ["iso", o, a] => match objTok st o, natTok a with
+    | some o, some a => doOp st (.iso o a) | _, _ => bad st
+  | ["addiso", o, a] => match objTok st o, natTok a with
+    | some o, some a => doOp st (.addIsotope o a) | _, _ => bad st
+  | ["ion", o, q] => match objTok st o, intTok q with
+    | some o, some q => doOp st (.ion o q) | _, _ => bad st
+  | ["element", o] => match objTok st o with
+    | some o => doOp st (.element o) | none => bad st
+  | ["isotopes", o] => match objTok st o with
+    | some o => doOp st (.isotopes o) | none => bad st
+  | ["itertable", t] => match strTok t with
+    | some t => doOp st (.iterTable t) | none => bad st
+  | ["iteriso", o] => match objTok st o with
+    | some o => doOp st (.iterIso o) | none => bad st
+  | ["reduce", o] => match objTok st o with
+    | some o => doOp st (.reduce o) | none => bad st
+  | ["changetable", o, t] => match objTok st o, strTok t with
+    | some o, some t => doOp st (.changeTable o t) | _, _ => bad st
+  | ["info", o] => match objTok st o with
+    | some o => do
+      match st.s.keyOf o, st.s.symName base o with
+      | some k, some (sym, nm) =>
+        let a := match k.a with | some a => toString a | none => "n"
+        let q := match k.q with | some q => toString q | none => "n"
+        reply s!"info {encStr k.table} {k.z} {a} {q} {encStr sym} {encStr nm}"
+      | _, _ => reply "err attribute"
+      pure st
+    | none => bad st
+  | _ => bad st
 
 end Driver.CoreCmd
